@@ -36,7 +36,7 @@ from . import hrun
 
 PROPERTY = 'C01'
 BOUNDS = {'quick': 'chunk: k<=4 lines; run order: k=3 parts; program_parts: 2 statements of 12 kinds x style x directive x want x 3 layouts; capture: as C12 quick',
-          'thorough': 'chunk: k<=6 lines; run order: k=4 parts; program_parts: also 3 statements without wants'}
+          'thorough': 'chunk: k<=6 lines; run order: k=4 parts; program_parts as quick (3 statements did not finish within 16 minutes on 8 cores and were withdrawn)'}
 OUTSIDE = ('where statements begin and end for programs outside the grammar of program_parts (_locate_ps1_linenos = ast.parse, the tokenizer are real there and oracles elsewhere), what compile/exec do with the text, top-level await semantics, '
            'and therefore "same effect as executing the de-prompted source as a plain program": none of it can be encoded; the claim is that '
            "xdoctest's own slicing / ordering / namespace / capture logic loses, duplicates or re-orders nothing for every answer those components can give")
@@ -53,9 +53,7 @@ def jobs(tier):
             {'ob': 'run_order_namespace', 'harness': 'order', 'k': 3 if q else 4, 'splits': [3, 6, 9], 'query_timeout_s': 60,
              'bounds': 'k=%d parts' % (3 if q else 4)},
             {'ob': 'program_parts', 'harness': 'program', 'k': 2, 'wants': True, 'splits': [2, 4], 'query_timeout_s': 60,
-             'bounds': '2 statements from a grammar of 12 kinds (simple, expression, compound, decorated def / async def / class, double decorator, bracket, triple-quoted string, comment, await, async with) x prompt style (>>> everywhere / ... continuation / unprefixed string lines) x inline directive x want, 3 layouts (flush left, indented below prose, indented)'}] + ([] if q else [
-            {'ob': 'program_parts', 'harness': 'program', 'k': 3, 'wants': False, 'splits': [2, 4, 6], 'query_timeout_s': 60, 'job_timeout_s': 3000,
-             'bounds': '3 statements from the same grammar without wants'}]) + [
+             'bounds': '2 statements from a grammar of 12 kinds (simple, expression, compound, decorated def / async def / class, double decorator, bracket, triple-quoted string, comment, await, async with) x prompt style (>>> everywhere / ... continuation / unprefixed string lines) x inline directive x want, 3 layouts (flush left, indented below prose, indented)'},
             dict(cj, ob='capture_attribution', harness='capture')]
 
 
